@@ -1301,9 +1301,11 @@ func extractConnLegacy(repo, root string) error {
 	}
 	x := &clx{funcs: map[string]*ast.FuncDecl{}, structs: map[string]*ast.StructType{}, memo: map[string]string{}, busy: map[string]bool{}}
 	connFns := map[string]*ast.FuncDecl{}
-	helperAlias := map[string]string{}       // actual name of a framing helper → "expectZeroSize" / "discardOnKafkaError"
-	var rbufUsers []string                   // every function of the package that touches a Conn's read buffer (`….rbuf`)
-	calledBy := map[string]map[string]bool{} // simple name of a callee → qualified names of the functions calling it
+	helperAlias := map[string]string{}         // actual name of a framing helper → "expectZeroSize" / "discardOnKafkaError"
+	var rbufUsers []string                     // every function of the package that touches a Conn's read buffer (`….rbuf`)
+	calledBy := map[string]map[string]bool{}   // simple name of a callee → qualified names of the functions calling it
+	referredBy := map[string]map[string]bool{} // simple name → qualified names of the functions that mention it at all
+	allDecls := map[string]*ast.FuncDecl{}     // qualified name → declaration
 	for _, fn := range files {
 		base := filepath.Base(fn)
 		if strings.HasSuffix(base, "_test.go") || strings.HasPrefix(base, "verif_") {
@@ -1333,6 +1335,24 @@ func extractConnLegacy(repo, root string) error {
 				if touches {
 					rbufUsers = append(rbufUsers, qname)
 				}
+				allDecls[qname] = dd
+				ast.Inspect(dd.Body, func(n ast.Node) bool {
+					// any use of a name (call or function value): who refers to what
+					name := ""
+					switch e := n.(type) {
+					case *ast.SelectorExpr:
+						name = e.Sel.Name
+					case *ast.Ident:
+						name = e.Name
+					}
+					if name != "" {
+						if referredBy[name] == nil {
+							referredBy[name] = map[string]bool{}
+						}
+						referredBy[name][qname] = true
+					}
+					return true
+				})
 				ast.Inspect(dd.Body, func(n ast.Node) bool {
 					if c, ok := n.(*ast.CallExpr); ok {
 						callee := ""
@@ -1466,6 +1486,60 @@ func extractConnLegacy(repo, root string) error {
 			return fmt.Errorf("untranslated: (*Conn).%s not found", m)
 		}
 		set := map[string]bool{}
+		// a helper method of Conn (not itself in the table) that only THIS method refers to — an extracted read closure,
+		// say — counts as part of the method: its calls are added (one level, then its own private helpers likewise)
+		bodies := []ast.Node{fd.Body}
+		owner := "Conn." + fd.Name.Name
+		seenHelper := map[string]bool{}
+		for k := 0; k < len(bodies) && k < 4; k++ {
+			ast.Inspect(bodies[k], func(n ast.Node) bool {
+				sel, ok := n.(*ast.SelectorExpr)
+				if !ok {
+					return true
+				}
+				h := allDecls["Conn."+sel.Sel.Name]
+				if h == nil || seenHelper[sel.Sel.Name] || helperNames[sel.Sel.Name] || connFns[sel.Sel.Name] == nil {
+					return true
+				}
+				for _, cm := range connMethods {
+					if cm == sel.Sel.Name {
+						return true
+					}
+				}
+				refs := referredBy[sel.Sel.Name]
+				only := len(refs) > 0
+				for r := range refs {
+					if r != owner && !seenHelper[strings.TrimPrefix(r, "Conn.")] {
+						only = false
+					}
+				}
+				if only {
+					seenHelper[sel.Sel.Name] = true
+					bodies = append(bodies, h.Body)
+				}
+				return true
+			})
+		}
+		for _, body := range bodies[1:] {
+			ast.Inspect(body, func(n ast.Node) bool {
+				if c, ok := n.(*ast.CallExpr); ok {
+					name := ""
+					switch f := c.Fun.(type) {
+					case *ast.Ident:
+						name = f.Name
+					case *ast.SelectorExpr:
+						name = f.Sel.Name
+					}
+					if canon, ok := helperAlias[name]; ok {
+						name = canon
+					}
+					if helperNames[name] {
+						set[name] = true
+					}
+				}
+				return true
+			})
+		}
 		ast.Inspect(fd.Body, func(n ast.Node) bool {
 			c, ok := n.(*ast.CallExpr)
 			if !ok {
